@@ -93,6 +93,28 @@ def gen_trace(recipe):
     for (x, y, z) in recipe['triples']:
       events.append(obs.triple_event(est, x, y, z))
     return {'est': name, 'events': events}
+  if recipe.get('store'):
+    # query points kept in the estimator's preprocessor array, of an INTEGER type, and addressed by index pairs
+    dt = np.dtype(recipe['store'])
+    tr = gen.training(rng, name, d=recipe['d'])
+    X = tr['X']
+    info = np.iinfo(dt)
+    lo = max(int(info.min), -(2 ** 20))
+    span = min(int(info.max) - lo, 4000)
+    rows = rng.choice(len(X), size=10, replace=len(X) < 10)
+    store = (np.round((X[rows] - X.min()) / (X.max() - X.min()) * span) + lo).astype(dt)
+    store[1] = store[0]                                        # a duplicated point
+    opts = gen.options(rng, name, recipe['d'], len(set(tr['y'].tolist())))
+    opts['preprocessor'] = store
+    est, tr, opts = gen.fitted(rng, name, opts=opts, train=tr)
+    events = [obs.model_event(est)]
+    metric = est.get_metric()
+    for _ in range(recipe['n']):
+      i, j, k = (int(v) for v in rng.choice(len(store), size=3, replace=False))
+      e = obs.index_triple_event(est, store, i, j, k, metric)
+      e['kind'] = 'index_' + recipe['store']
+      events.append(e)
+    return {'est': name, 'opts': {'preprocessor': recipe['store']}, 'shape': list(est.components_.shape), 'events': events}
   est, tr, opts = gen.fitted(rng, name, d=recipe['d'])
   events = [obs.model_event(est)]
   metric = est.get_metric()
@@ -121,6 +143,10 @@ def recipes(ctx):
       kinds = list(KINDS) + [KINDS[int(v)] for v in rng.integers(len(KINDS), size=max(0, n_tri - len(KINDS)))]
       out.append(dict(src='fit', est=name, d=int(rng.integers(2, 5 if ctx.quick else 9)),
                       seed=int(rng.integers(1 << 30)), kinds=kinds))
+    # the query points live in an integer-typed preprocessor array and are addressed by index
+    for c in range(1 if ctx.quick else 4):
+      out.append(dict(src='fit', est=name, d=int(rng.integers(2, 5)), seed=int(rng.integers(1 << 30)), kinds=[],
+                      store=str(rng.choice(['uint8', 'int8', 'uint16', 'int16', 'uint32', 'int64', 'uint64'])), n=6 if ctx.quick else 12))
   return out
 
 
